@@ -17,7 +17,7 @@ PROPS = {
     "C03": {"engines": ["govc"], "level": "proof",
             "not_covered": "correct rounding is inherited from strconv.ParseFloat (assumed); only the typed accessors and flag plumbing are proved here unless parseNumber obligations are listed in functions_under_contract",
             "assumptions": COMMON_ASSUME},
-    "C05": {"engines": ["govc"], "level": "proof",
+    "C05": {"engines": ["govc", "asmvc"], "level": "proof",
             "not_covered": "stack exhaustion through recursive readers; liveness of ParseNDStream; Interface()/Map() recursion",
             "assumptions": COMMON_ASSUME},
     "C12": {"engines": ["govc"], "level": "proof",
